@@ -6,7 +6,8 @@ Open Scope Z_scope.
 
 Inductive cmp := CLt | CLe | CGt | CGe | CEq | CNe.
 Inductive dim := NumLeft | NumRight.
-Inductive operand := OConst (z : Z) | ODim (d : dim).
+(* ODimMax d k: `<dimension>.max(k)` *)
+Inductive operand := OConst (z : Z) | ODim (d : dim) | ODimMax (d : dim) (k : Z).
 (* how the tested value is converted before the comparison: `x`, `x as usize` *)
 Inductive cast := CastNone | CastUsize.
 (* `if (cast x) cmp rhs { return Err }` *)
@@ -30,7 +31,7 @@ Definition cast_eval (k : cast) (x : Z) : Z :=
 
 Definition dim_val (d : dim) (nl nr : Z) : Z := match d with NumLeft => nl | NumRight => nr end.
 Definition operand_eval (o : operand) (nl nr : Z) : Z :=
-  match o with OConst z => z | ODim d => dim_val d nl nr end.
+  match o with OConst z => z | ODim d => dim_val d nl nr | ODimMax d k => Z.max (dim_val d nl nr) k end.
 
 Definition fires (g : guard) (nl nr x : Z) : bool :=
   cmp_eval (g_cmp g) (cast_eval (g_cast g) x) (operand_eval (g_rhs g) nl nr).
@@ -70,10 +71,11 @@ Fixpoint iexp_eqb (a b : iexp) : bool :=
 
 (* ---- decidable side conditions on generated guards (their meaning is proved in Proofs/GuardProofs.v) ---- *)
 
-(* the guard rejects every value >= the dimension d *)
+(* the guard rejects every value >= the dimension d, provided d >= 1 *)
 Definition rejects_all_ge (g : guard) (d : dim) : bool :=
   match g_cmp g, g_rhs g with
   | CGe, ODim d' => dim_eqb d d'
+  | CGe, ODimMax d' k => dim_eqb d d' && (k <=? 1)
   | _, _ => false
   end.
 
@@ -84,6 +86,7 @@ Definition rejects_all_neg (g : guard) (d : dim) : bool :=
   | CastNone, CLe, OConst c => -1 <=? c
   | CastUsize, CGe, ODim d' => dim_eqb d d'
   | CastUsize, CGt, ODim d' => dim_eqb d d'
+  | CastUsize, CGe, ODimMax d' k => dim_eqb d d' && (k <=? 1)
   | _, _, _ => false
   end.
 
